@@ -208,7 +208,8 @@ def run_shard(sh, tier, seed):
         cands = candidates(s)
         losses = _loss(y, f([c[2] for c in cands]), m_, lk).tolist() if cands else []
         best = min(losses) if losses else None
-        improving = best is not None and best < cur
+        eps64 = 1e-12 * max(1.0, abs(cur)) if kind == "linear64" else 0.0
+        improving = best is not None and best < cur - eps64
         bs = (1, 3, 32)[len(seen) % 3]
         st, nxt = impl_step(s, batch_size=bs)
         rec.count("transitions")
@@ -229,15 +230,18 @@ def run_shard(sh, tier, seed):
             continue
         step_of[s] = nxt
         if improving:
-            if nxt not in [c[2] for c in best_cands]:
+            # double-precision model: the candidate losses are sums whose last bit depends on how the batch is evaluated, so a candidate
+            # within a few ulp of the smallest loss is as good as "the" smallest (exact-integer models below need no such allowance)
+            near_best = kind == "linear64" and abs(loss_of(nxt) - best) <= 1e-12 * max(1.0, abs(best))
+            if nxt not in [c[2] for c in best_cands] and not near_best:
                 rec.violation("greedy:step_not_best:" + tag, case,
                               expected=dict(best_loss=best, any_of=[(motifs[mi], p) for (mi, p, _) in best_cands][:4]),
                               observed=dict(seq="".join(ALPH[c] for c in nxt), loss=loss_of(nxt), current_loss=cur))
         else:
-            if nxt != s:
+            if nxt != s and not (kind == "linear64" and abs(loss_of(nxt) - cur) <= eps64):
                 rec.violation("greedy:changed_without_improvement", case, expected="unchanged",
                               observed="".join(ALPH[c] for c in nxt))
-        if loss_of(nxt) > cur:
+        if loss_of(nxt) > cur + eps64:
             rec.violation("greedy:loss_increased", case, expected=cur, observed=loss_of(nxt))
         rec.outcome((s, nxt))
         if nxt not in seen:
@@ -268,6 +272,9 @@ def run_shard(sh, tier, seed):
                     # improvement == tol the comparison must be made on the float32 difference
                     improvement = float(numpy.float32(loss_of(exp)) - numpy.float32(loss_of(nx))) if kind != "linear64" else loss_of(exp) - loss_of(nx)
                     exp = nx
+                    if kind == "linear64" and abs(improvement - tol) < 1e-9:
+                        exp = None          # the stopping comparison is decided by the last bits of a double-precision sum: not decided here
+                        break
                     if improvement <= tol:
                         break
                     it += 1
